@@ -36,6 +36,7 @@ def assemble_contract(program, status, outcome, mapping):
     ghost("callee_outcome", outcome)
     ghost("status", status)
     ghost("fs", {})
+    rom_type_before = program.resolver.rom_type
     try:
         r = program.assemble("prog.s", "out.sfc", mapping)
     except OSError:
@@ -48,6 +49,9 @@ def assemble_contract(program, status, outcome, mapping):
     check("output_image_starts_empty", ghost_get("open_mode:out.sfc") == "wb")
     if mapping is not None:
         check("mapping_applied", program.resolver.rom_type == mapping_rom_type(mapping))
+    else:
+        # no mapping given = keep the one this Program was set to (set_mapping / resolver.rom_type), not a reset to the default
+        check("mapping_kept_when_none_is_given", program.resolver.rom_type == rom_type_before)
 
 
 def assemble_as_patch_contract(program, status, outcome, mapping, copier):
@@ -55,6 +59,7 @@ def assemble_as_patch_contract(program, status, outcome, mapping, copier):
     ghost("callee_outcome", outcome)
     ghost("status", status)
     ghost("fs", {})
+    rom_type_before = program.resolver.rom_type
     try:
         r = program.assemble_as_patch("prog.s", "out.ips", mapping, copier)
     except OSError:
@@ -72,6 +77,8 @@ def assemble_as_patch_contract(program, status, outcome, mapping, copier):
         check("mapping_applied", program.resolver.rom_type == RomType.low_rom_2)
     elif mapping == "high":
         check("mapping_applied", program.resolver.rom_type == RomType.high_rom)
+    else:
+        check("mapping_kept_when_none_is_given", program.resolver.rom_type == rom_type_before)
 
 
 def assemble_string_contract(program, emitter, parse_error, resolve_outcome, emit_outcome):
